@@ -117,17 +117,25 @@ def product(a,b):
       potential.deriv2 = deriv2
   return potential
 
+def _real_power(x, y):
+  """x**y for real results only. Python gives a complex number for a negative base under a non-integral exponent
+  (where math.pow() raises): a potential has no value there."""
+  value = x**y
+  if isinstance(value, complex):
+    raise ValueError("math domain error: {}**{} is not a real number".format(x, y))
+  return value
+
 def _power_rule(a, n, da, d2a = None):
   """First (or, when `d2a` is given, second) derivative of a(r)**n for an exponent n that does not depend on r.
 
   Terms whose coefficient vanishes are not evaluated, so that (r-1)**2 has derivatives at r = 1."""
   if d2a is None:
-    return n * a**(n-1) * da if n != 0 else 0.0
+    return n * _real_power(a, n-1) * da if n != 0 else 0.0
   value = 0.0
   if n*(n-1) != 0 and da != 0:
-    value += n*(n-1) * a**(n-2) * da * da
+    value += n*(n-1) * _real_power(a, n-2) * da * da
   if n != 0 and d2a != 0:
-    value += n * a**(n-1) * d2a
+    value += n * _real_power(a, n-1) * d2a
   return value
 
 def pow(a,b):
@@ -150,7 +158,7 @@ def pow(a,b):
   :return: Function that when evaulated returns ``a(r)**b(r)`` (a to the power of b)"""
 
   def potential(r):
-    return a(r)**b(r)
+    return _real_power(a(r), b(r))
 
   # Set derivatives
   if hasattr(a, 'deriv') or hasattr(b, 'deriv'):
